@@ -26,6 +26,7 @@ package main
 import (
 	"context"
 	"encoding/json"
+	"errors"
 	"flag"
 	"fmt"
 	"os"
@@ -190,9 +191,14 @@ func (l *evlog) snapshot() []event {
 	return out
 }
 
+// errBody is what the callbacks handed to RunTaskWithErr return: the task's
+// own error, which the Stopper passes through.  The call was accepted and
+// ran to its end: towards the model and the oracle that is "nil".
+var errBody = errors.New("the task's own error")
+
 func errName(err error) string {
 	switch err {
-	case nil:
+	case nil, errBody:
 		return "nil"
 	case stop.ErrUnavailable:
 		return "unavailable"
@@ -839,7 +845,17 @@ func (c *ctl) do(o hop) {
 			if async {
 				err = c.s.RunAsyncTask(tctx, fmt.Sprintf("t%d", i), c.body(i, t))
 			} else {
-				err = c.s.RunTask(tctx, fmt.Sprintf("t%d", i), c.body(i, t))
+				if i%2 == 0 {
+					err = c.s.RunTask(tctx, fmt.Sprintf("t%d", i), c.body(i, t))
+				} else {
+					// same accounting, callback with an error result: it
+					// returns a non-nil error (or panics, on command)
+					b := c.body(i, t)
+					err = c.s.RunTaskWithErr(tctx, fmt.Sprintf("t%d", i), func(ctx context.Context) error {
+						b(ctx)
+						return errBody
+					})
+				}
 			}
 			t.ret.Store(errName(err))
 			c.l.add("ret", i, -1, errName(err), true)
@@ -1345,7 +1361,19 @@ func runFree(seed int64) freeCase {
 			case x < 15:
 				i := int(atomic.AddInt32(&taskID, 1)) - 1
 				l.start(i, -1, true)
-				err := s.RunTask(pickCtx(), "t", mkBody(i, r))
+				var err error
+				if b := mkBody(i, r); r.Intn(2) == 0 {
+					err = s.RunTask(pickCtx(), "t", b)
+				} else {
+					fails := r.Intn(3) != 0
+					err = s.RunTaskWithErr(pickCtx(), "t", func(ctx context.Context) error {
+						b(ctx)
+						if fails {
+							return errBody
+						}
+						return nil
+					})
+				}
 				l.add("ret", i, -1, errName(err), true)
 			case x < 35:
 				i := int(atomic.AddInt32(&taskID, 1)) - 1
